@@ -10,6 +10,7 @@ RULE = ("as C06 but for the chance-sampled and external-sampled methods with eve
         "the hook also records every draw, and more than one draw per (kind, cell, pass) or a panic at the try_lock site is a "
         "violation; k in {2,3,4,8,16,64} threads vs 1 thread vs the model, repeated under seeded yield-point perturbation")
 ASSUMPTIONS = c06.ASSUMPTIONS
+EXPLAINED = c06.EXPLAINED
 
 
 def generate(rng, tier, n):
